@@ -751,8 +751,12 @@ class Fxp():
         else:
             raise ValueError('Not supported input type: {}'.format(type(val)))
 
-        # convert to (numpy) ndarray
+        # convert to (numpy) ndarray (Python integers from 2**63 on would become uint64, which a raw
+        # store reads as wrapped int64 differences: they are kept as Python integers)
+        _from_python = not isinstance(val, (np.ndarray, np.generic))
         val = np.array(val)
+        if _from_python and val.dtype == np.uint64:
+            val = val.astype(object)
 
         if vdtype is None:
             vdtype = val.dtype
